@@ -213,6 +213,21 @@ def seq_twin(e):
     return e
 
 
+def norm_rng(e):
+    """`rand::thread_rng()` and a local `rng` bound to it are the same random source"""
+    if isinstance(e, tuple):
+        if e and e[0] == "call" and isinstance(e[1], tuple) and e[1] and e[1][0] == "path" and e[1][1][-1] == "thread_rng" and not e[2]:
+            return ("path", ["rng"])
+        if e and e[0] == "block":
+            st = [norm_rng(x) for x in e[1]]
+            st = [x for x in st if not (x[0] == "let" and x[1] == ("pid", "rng") and x[3] == ("path", ["rng"]))]
+            return ("block", st, norm_rng(e[2]) if e[2] is not None else None)
+        return tuple(norm_rng(x) for x in e)
+    if isinstance(e, list):
+        return [norm_rng(x) for x in e]
+    return e
+
+
 def norm_for_cmp(e):
     """structural normal form for the twin comparison"""
     e = simplify_block(e)
@@ -349,6 +364,17 @@ class Emitter:
         if k == "array":
             vs = [self.ex(x, env) for x in e[1]]
             return "[" + ", ".join(v for v, _ in vs) + "]", ("vec", vs[0][1])
+        if k == "checked":
+            # single_op_checked!(op) = match op { op if op.is_valid() => Some(op.into()), _ => None }  (text checked by the translator)
+            if not self.tr.checked_macro_ok:
+                self.fail("macro single_op_checked! does not have its canonical text")
+            v, t = self.ex(e[1], env)
+            if t != ("struct", "Atom"):
+                self.fail("single_op_checked! of a non-atomic operator")
+            sg = self.tr.sigs.get(("SingleOp", "from"))
+            if sg is None:
+                self.fail("From<Op> for SingleOp is not translated")
+            return f"(if Atom.isValid {atom(v)} then some ({sg.lean} {atom(v)}) else none)", ("opt", ("struct", "SingleOp"))
         if k == "if":
             return self.if_expr(e, env, want)
         if k == "block":
@@ -384,6 +410,10 @@ class Emitter:
             return "(0 : Cx R)", "C"
         if last == "C_ONE":
             return "(1 : Cx R)", "C"
+        if last == "FRAC_PI_2":
+            return "Rs.AngleConsts.fracPi2", "R"
+        if last == "PI":
+            return "Rs.AngleConsts.pi", "R"
         if last == "MIN_BUFFER_LEN":
             c = self.tr.consts.get("MIN_BUFFER_LEN")
             if c is None:
@@ -474,6 +504,14 @@ class Emitter:
             if INT_BITS[to] >= INT_BITS[t]:
                 return v, to
             return f"{atom(v)} % 2 ^ {INT_BITS[to]}", to
+        if is_int(t) and to == "R":
+            return f"(HasRound.ofNat {atom(v)} : R)", "R"
+        if is_int(t) and to == "Z":
+            return f"(Int.ofNat {atom(v)})", "Z"          # values below 2^63 (a shot count / a histogram total)
+        if t == "Z" and to == "N":
+            return f"(Int.toNat {atom(v)})", "N"         # callers cast non-negative values only
+        if t == "Zround" and to == "Z":
+            return v, "Z"
         self.fail(f"cast {t} as {e[2]}")
 
     def binop(self, e, env, want):
@@ -525,6 +563,8 @@ class Emitter:
             if op == "*" and {ta, tb} == {"R", "C"}:
                 c, r = (a, b) if ta == "C" else (b, a)
                 return f"(Cx.scale {atom(c)} {atom(r)})", "C"
+            if ta == tb == "Z" and op in ("+", "-"):
+                return f"({a} {op} {b})", "Z"
             if is_int(ta) and ta == tb:
                 if op == "+":
                     return f"({a} + {b})", ta        # overflow = panic in debug; callers stay below 2^64
@@ -566,6 +606,18 @@ class Emitter:
                 self.fail(f"adaptor .{name} on iter_mut")
             if name == "rev" and not args:
                 return dict(it, list=f"List.reverse {atom(it['list'])}")
+            if name == "map" and len(args) == 1 and self.draws_normal(args[0]):
+                # |x| { let rnd: R = rng.sample(StandardNormal); BODY }: one draw per element, in order: zip with the input list
+                c = unparen(args[0])
+                body = c[2]
+                rest = ("block", body[1][1:], body[2])
+                rn = body[1][0][1][1]
+                self.need_input("normals", ("vec", "R"))
+                c2 = ("closure", [("ptuple", [c[1][0], ("pid", rn)])], rest)
+                f, tf, mon = self.closure(c2, [("tup", [it["elem"], "R"])], env)
+                if mon:
+                    self.fail("monadic closure in .map")
+                return dict(it, list=f"List.map {atom(f)} (List.zip {atom(it['list'])} normals)", elem=tf)
             if name == "map" and len(args) == 1:
                 f, tf, mon = self.closure(args[0], [it["elem"]], env)
                 if mon:
@@ -602,6 +654,13 @@ class Emitter:
         if isinstance(t, tuple) and t[0] == "vec":
             return dict(list=v, elem=t[1], mut=None, enum=False)
         self.fail("not an iterator")
+
+    def draws_normal(self, c):
+        c = unparen(c)
+        if c[0] != "closure" or len(c[1]) != 1 or c[2][0] != "block" or not c[2][1]:
+            return False
+        st = c[2][1][0]
+        return st[0] == "let" and st[1][0] == "pid" and st[3] is not None and "StandardNormal" in repr(st[3]) and "sample" in repr(st[3])
 
     def bind_pat(self, pat, val, ty, env, lets):
         """destructure `val : ty` by `pat`; extends env, appends lets"""
@@ -705,6 +764,14 @@ class Emitter:
         if t == "R":
             if name == "sqrt" and not args:
                 return f"HasSqrt.sqrt {atom(v)}", "R"
+            if name == "round" and not args:
+                return f"HasRound.roundInt {atom(v)}", "Zround"      # only as `x.round() as Z`
+        if t == "Z":
+            if name == "max" and len(args) == 1:
+                b, tb = self.ex(args[0], env, "Z")
+                return f"max {atom(v)} {atom(b)}", "Z"
+            if name == "unsigned_abs" and not args:
+                return f"Int.natAbs {atom(v)}", "N"
         if t == "C":
             if name == "norm_sqr" and not args:
                 return f"Cx.normSq {atom(v)}", "R"
@@ -767,6 +834,8 @@ class Emitter:
             self.pending.append((u, call))
             self.monadic = True
             return u, sig.ret
+        if sig.ret == ("struct", "Atom"):
+            return f"({call} : Atom R)", sig.ret
         return f"({call})" if args else call, sig.ret
 
     def need_input(self, n, ty):
@@ -787,7 +856,7 @@ class Emitter:
     def sink(self, e, env, want):
         recv, name, args = unparen(e[1]), e[2], e[3]
         # monadic map directly before collect:  it.map(|x| ... unwrap ...).collect()
-        if name == "collect" and recv[0] == "mcall" and recv[2] == "map" and len(recv[3]) == 1:
+        if name == "collect" and recv[0] == "mcall" and recv[2] == "map" and len(recv[3]) == 1 and not self.draws_normal(recv[3][0]):
             it = self.iter_of(recv[1], env)
             if it["mut"] is None:
                 f, tf, mon = self.closure(recv[3][0], [it["elem"]], env)
@@ -916,8 +985,18 @@ class Emitter:
         return f"(if {c} then {a} else {b})", ta
 
     def match_to_if(self, e):
-        """`match n { 0 => A, 1 => B, _ => C }` on an integer as an if / else-if chain"""
+        """`match n { 0 => A, 1 => B, _ => C }` on an integer as an if / else-if chain;
+        `match x.cmp(&0) { Ordering::Less => A, Ordering::Greater => B, _ => C }` likewise"""
         arms = e[2]
+        sc = unparen(e[1])
+        if sc[0] == "mcall" and sc[2] == "cmp" and len(sc[3]) == 1 and len(arms) == 3 and arms[2][0][0] == "pwild" \
+           and all(a[1] is None for a in arms) and [a[0] for a in arms[:2]] == [("ppath", ["Ordering", "Less"], None), ("ppath", ["Ordering", "Greater"], None)]:
+            x, y = sc[1], unparen(sc[3][0])
+            if y[0] == "ref":
+                y = y[1]
+            def blk(b):
+                return b if b[0] == "block" else ("block", [], b)
+            return ("if", ("bin", "<", x, y), blk(arms[0][2]), ("if", ("bin", ">", x, y), blk(arms[1][2]), blk(arms[2][2])))
         if not arms or arms[-1][0][0] != "pwild" or any(a[1] is not None for a in arms):
             return None
         if not all(a[0][0] == "plit" for a in arms[:-1]):
@@ -952,7 +1031,7 @@ class Emitter:
         if mbody[0] == "call" and unparen(mbody[1])[0] == "path" and unparen(mbody[1])[1][-1] == "global_install" and len(mbody[2]) == 2 \
            and unparen(mbody[2][1])[0] == "closure" and not unparen(mbody[2][1])[1]:
             pbody = unparen(mbody[2][1])[2]
-            ok = norm_for_cmp(seq_twin(pbody)) == norm_for_cmp(sbody)
+            ok = norm_for_cmp(norm_rng(seq_twin(pbody))) == norm_for_cmp(norm_rng(sbody))
             if not ok:
                 why = "the parallel arm is not the sequential arm with rayon adaptors"
         else:
@@ -1026,6 +1105,9 @@ class Emitter:
             if e[0] == "match":
                 if self.is_threading_match(e):
                     return self.stmts([("expr", self.threading_arm(e))] + rest, tail, env, k, want)
+                chain = self.match_to_if(e)
+                if chain is not None:
+                    return self.control(chain, env, lambda env2, v: cont(env2), want, is_tail=False)
                 return self.control(e, env, lambda env2, v: cont(env2), want, is_tail=False)
             if e[0] in ("block", "unsafe"):
                 blk = e if e[0] == "block" else e[1]
@@ -1199,7 +1281,7 @@ class Emitter:
             env2 = dict(env); env2[pat[1]] = (n, told)
             return self.wrap_lets([f"let {tmpn} := {nv}", f"let {n} := {old}"], self.set_place(place, tmpn, env2, cont))
         # random draw -> input
-        if "thread_rng" in repr(e0) and contains(e0, ("mcall",)) and "sample" in repr(e0):
+        if e0[0] == "mcall" and e0[2] == "sample" and "thread_rng" in repr(e0[1]):
             if pat[0] != "pid":
                 self.fail("random draw bound to a pattern")
             if "WeightedIndex" not in repr(e0):
@@ -1207,6 +1289,9 @@ class Emitter:
             n = lname(pat[1])
             self.need_input(n, "N")
             env = dict(env); env[pat[1]] = (n, "N")
+            return cont(env)
+        if e0[0] == "call" and unparen(e0[1])[0] == "path" and unparen(e0[1])[1][-1] == "thread_rng" and pat[0] == "pid":
+            env = dict(env); env[pat[1]] = ("()", "rng")
             return cont(env)
         if e0[0] == "match" and self.is_threading_match(e0):
             e0 = self.threading_arm(e0)
@@ -1709,8 +1794,10 @@ class Emitter:
                     self.fail("if statement without effect")
                 tys = [env[r][1] for r in roots]
                 def br(blk):
-                    if blk is None:
+                    if blk is None or (blk[0] == "block" and not blk[1] and blk[2] is None):
                         return self.pack_state(roots, env)
+                    if blk[0] == "if":
+                        blk = ("block", [("expr", blk)], None)
                     v, _ = self.stmts(blk[1], blk[2] if blk[2] is not None and False else None, dict(env),
                                       lambda env2, _v: (self.pack_state(roots, env2), None)) if blk[2] is None else \
                         self.stmts(blk[1] + [("expr", blk[2])], None, dict(env), lambda env2, _v: (self.pack_state(roots, env2), None))
@@ -1870,8 +1957,51 @@ class Emitter:
         call = f"{name} {' '.join(n for n, _ in fixed)} {fuel} {atom(self.pack_state(state, env))}".replace("  ", " ")
         return f"Option.bind ({call}) (fun {res} => {inner})", t
 
+    def filtered_enum_chain(self, it):
+        """V.iter_mut().zip(Y.iter()).filter(|(_, &y)| P).map(|(x, _)| x).enumerate()  ->  (V, Y, filter closure)"""
+        it = unparen(it)
+        try:
+            assert it[0] == "mcall" and it[2] == "enumerate" and not it[3]
+            m = unparen(it[1]); assert m[0] == "mcall" and m[2] == "map" and len(m[3]) == 1
+            mc = unparen(m[3][0])
+            assert mc[0] == "closure" and mc[1] == [("ptuple", [("pid", mc[1][0][1][0][1]), ("pwild",)])] and unparen(mc[2]) == ("path", [mc[1][0][1][0][1]])
+            f = unparen(m[1]); assert f[0] == "mcall" and f[2] == "filter" and len(f[3]) == 1
+            fc = unparen(f[3][0]); assert fc[0] == "closure" and len(fc[1]) == 1 and fc[1][0][0] == "ptuple" and fc[1][0][1][0] == ("pwild",)
+            z = unparen(f[1]); assert z[0] == "mcall" and z[2] == "zip" and len(z[3]) == 1
+            v = unparen(z[1]); assert v[0] == "mcall" and v[2] == "iter_mut" and not v[3]
+            y = unparen(z[3][0]); assert y[0] == "mcall" and y[2] == "iter" and not y[3]
+            return v[1], y[1], ("closure", [fc[1][0][1][1]], fc[2])
+        except (AssertionError, IndexError, TypeError):
+            return None
+
     def for_loop(self, e, env, cont):
         pat, itexpr, body = e[1], unparen(e[2]), e[3]
+        chain = self.filtered_enum_chain(itexpr)
+        if chain is not None:
+            # the selected elements are updated in place; the counter runs over the selected ones only
+            vec, ys, fclos = chain
+            if contains(body, ("return", "break", "continue")):
+                self.fail("control-flow escape in a for over iter_mut()")
+            if pat[0] != "ptuple" or len(pat[1]) != 2 or pat[1][0][0] != "pid" or pat[1][1][0] != "pid":
+                self.fail("for over the filtered chain: pattern is not (idx, elem)")
+            v, tv = self.ex(vec, env); y, ty = self.ex(ys, env)
+            if not (isinstance(tv, tuple) and tv[0] == "vec" and isinstance(ty, tuple) and ty[0] == "vec"):
+                self.fail("for over the filtered chain: not vectors")
+            pf, tpf, mon = self.closure(fclos, [ty[1]], env)
+            if mon or tpf != "bool":
+                self.fail("filter closure")
+            idxn, eln = pat[1][0][1], pat[1][1][1]
+            env2 = dict(env)
+            env2[idxn] = (lname(idxn), "N"); env2[eln] = (lname(eln), tv[1])
+            outer = [r for r in self.assigned_roots(body, env2, local=[]) if r != eln]
+            if outer:
+                self.fail(f"for over iter_mut() also assigns {outer}")
+            val, _ = self.stmts(body[1] + ([("expr", body[2])] if body[2] is not None else []), None, env2,
+                                lambda env3, _v: (env3[eln][0], tv[1]))
+            new = f"Rs.updateSelected {atom(v)} {atom(y)} ({pf}) (fun {lname(idxn)} {lname(eln)} => {val})"
+            return self.set_place(vec, new, env, cont)
+        if itexpr[0] == "range" and itexpr[2] is None and itexpr[1] is not None:
+            return self.for_unbounded(e, env, cont)
         if contains(body, ("return", "break")):
             self.fail("return / break inside a for loop")
         it = self.iter_of(itexpr, env)
@@ -1892,18 +2022,76 @@ class Emitter:
         saved = self.pending; self.pending = []
         v, t = self.stmts(body[1] + ([("expr", body[2])] if body[2] is not None else []), None, env2,
                           lambda env3, _v: on_continue(env3))
-        mon = bool(self.pending)
-        if mon:
+        if self.pending:
             self.fail("panicking expression at the top of a for body")
         self.pending = saved
         self.loop_handlers = self.loop_handlers[:-1]
-        body_mon = "Option.bind" in v or v.startswith("none")
         f = f"fun {st} {a} => " + wrap(lets, v)
         res = self.gensym("st")
         env3 = dict(env)
         lets2 = [f"let {res} := List.foldl ({f}) {self.pack_state(state, env)} {atom(it['list'])}"]
         self.unpack_state(res, state, tys, env3, lets2)
         return self.wrap_lets(lets2, cont(env3))
+
+    def for_unbounded(self, e, env, cont):
+        """`for idx in LO.. { .. break .. continue .. }`: a fuel loop whose counter advances at the end of the body and at `continue`"""
+        pat, itexpr, body = e[1], unparen(e[2]), e[3]
+        if pat[0] != "pid" or contains(body, ("return",)):
+            self.fail("for over an unbounded range: pattern / return")
+        idxn = pat[1]
+        lo, tl = self.ex(itexpr[1], env, "N")
+        state = self.assigned_roots(body, env, local=[idxn])
+        tys = [env[r][1] for r in state]
+        name = f"{self.tr.cur_lean}_loop{len(self.aux) + 1}"
+        used = []
+        text = repr(body)
+        for r, (ln, t) in env.items():
+            if r in state or (isinstance(t, tuple) and t and t[0] == "fn") or ln == "ALIAS":
+                continue
+            if re.search(r"\['" + re.escape(r) + r"'\]", text):
+                used.append(r)
+        fixed = [(lname(r), env[r][1]) for r in used]
+        env2 = {r: (lname(r), env[r][1]) for r in used}
+        lets = []
+        allst = [idxn] + state
+        alltys = ["N"] + tys
+        env2[idxn] = (lname(idxn), "N")
+        self.unpack_state("st", allst, alltys, env2, lets)
+        rec = f"{name} {' '.join(n for n, _ in fixed)} fuel".replace("  ", " ")
+        def pack(env3, bump):
+            i = env3[idxn][0]
+            comps = [f"({i} + 1)" if bump else i] + [env3[r][0] for r in state]
+            return "(" + ", ".join(comps) + ")"
+        def on_continue(env3):
+            return f"{rec} {pack(env3, True)}", None
+        def on_break(env3):
+            return f"some {pack(env3, False)}", None
+        self.loop_handlers = self.loop_handlers + [{"continue": on_continue, "break": on_break}]
+        saved = self.pending; self.pending = []
+        v, t = self.stmts(body[1] + ([("expr", body[2])] if body[2] is not None else []), None, dict(env2),
+                          lambda env3, _v: on_continue(env3))
+        if self.pending:
+            self.fail("panicking expression at the top of a loop body")
+        self.pending = saved
+        self.loop_handlers = self.loop_handlers[:-1]
+        st_ty = " × ".join(atom(lean_ty(t)) for t in alltys)
+        binder = "".join(f" ({n} : {lean_ty(t)})" for n, t in fixed)
+        self.aux.append(
+            f"def {name}{binder} : Nat → {st_ty} → Option ({st_ty})\n"
+            f"  | 0, _ => none\n  | fuel + 1, st => {wrap(lets, v)}\n")
+        self.monadic = True
+        fuel = self.tr.fuel_of(self.where)
+        res = self.gensym("st")
+        env3 = dict(env)
+        lets2 = []
+        tmp_env = dict(env3)
+        self.unpack_state(res, allst, alltys, tmp_env, lets2)
+        for r in state:
+            env3[r] = tmp_env[r]
+        inner, t = self.wrap_lets(lets2, cont(env3))
+        init = "(" + ", ".join([lo] + [env[r][0] for r in state]) + ")"
+        call = f"{name} {' '.join(n for n, _ in fixed)} {fuel} {init}".replace("  ", " ")
+        return f"Option.bind ({call}) (fun {res} => {inner})", t
 
 
 def wrap(lets, v):
@@ -1927,6 +2115,8 @@ class Translator:
         self.out = []
         self.fuels = {}
         self.default_elem = "C"
+        self.checked_macro_ok = False
+        self.in_opmod = False
         self.generic_op_is_multi = False
 
     def inst_binder(self):
@@ -1943,6 +2133,8 @@ class Translator:
 
     def function(self, segs, self_struct):
         last = segs[-1]
+        if len(segs) == 1 and ("opmod", last) in self.sigs and self.in_opmod:
+            return self.sigs[("opmod", last)]
         if len(segs) >= 2:
             owner = segs[-2]
             owner = {"Self": self_struct[1] if isinstance(self_struct, tuple) and self_struct[0] == "struct" else None,
@@ -2075,9 +2267,10 @@ set_option linter.unusedVariables false
 
 namespace Qvnt.Gen2
 open Qvnt Qvnt.Gen
+open Qvnt.QReg (HasRound)
 
-variable {R : Type} [Add R] [Sub R] [Mul R] [Div R] [Neg R] [Zero R] [One R] [Consts R]
-  [LE R] [DecidableLE R] [LT R] [DecidableLT R] [HasSqrt R] [RegConsts R]
+variable {R : Type} [Add R] [Sub R] [Mul R] [Div R] [Neg R] [Zero R] [One R] [Consts R] [Trig R] [Rs.AngleConsts R]
+  [LE R] [DecidableLE R] [LT R] [DecidableLT R] [HasSqrt R] [RegConsts R] [HasRound R]
 
 /-- `AtomicOp::for_each(&self, psi_i, psi_o, ctrl)`: `psi_o.iter_mut().enumerate().for_each(|(idx, psi)| *psi = E)`
 (that shape is checked by rs2lean.py) with `E` the translated closure body `Gen.forEach` -/
@@ -2218,6 +2411,34 @@ def main():
         T(t, "operator/multi/mod.rs", "mul_assign", "multi_mul_assign", struct="MultiOp", impl=r"impl MulAssign for MultiOp")
     group("operator/multi/mod.rs", multi)
 
+    # ---- operator/single/{pauli,rotate,swap}.rs: the checked constructors (atom constructors come from rs2lean.py)
+    for k in ["x", "y", "z", "s", "t", "swap", "sqrt_swap", "i_swap", "sqrt_i_swap"]:
+        tr.register(k, "new", S(f"Gen.{k}_new", [("a_mask", "N")], ATOM))
+    for k in ["rx", "ry", "rz", "rxx", "ryy", "rzz"]:
+        tr.register(k, "new", S(f"Gen.{k}_new", [("a_mask", "N"), ("phase", "R")], ATOM))
+    def single_ctors(t):
+        txt = " ".join(x[1] for x in t)
+        canon = "macro_rules ! single_op_checked { ( $ op : expr ) => { match $ op { op if op . is_valid ( ) => Some ( op . into ( ) ) , _ => None , } } ; }"
+        tr.checked_macro_ok = canon in txt
+        if not tr.checked_macro_ok:
+            tr.problems.append("mod.rs: operator/single/mod.rs::single_op_checked: the macro does not have its canonical text")
+    group("operator/single/mod.rs", single_ctors)
+    def pauli(t):
+        for k in ["x", "y", "z", "s", "t"]:
+            T(t, "operator/single/pauli.rs", k, "pauli_" + k)
+            tr.sigs[("pauli", k)] = tr.sigs.pop((None, k), None) or tr.sigs.get(("pauli", k))
+    group("operator/single/pauli.rs", pauli)
+    def rotate(t):
+        for k in ["rx", "ry", "rz", "rxx", "ryy", "rzz"]:
+            T(t, "operator/single/rotate.rs", k, "rotate_" + k)
+            tr.sigs[("rotate", k)] = tr.sigs.pop((None, k), None) or tr.sigs.get(("rotate", k))
+    group("operator/single/rotate.rs", rotate)
+    def swapf(t):
+        for k in ["swap", "sqrt_swap", "i_swap", "sqrt_i_swap"]:
+            T(t, "operator/single/swap.rs", k, "swapmod_" + k)
+            tr.sigs[("swap", k)] = tr.sigs.pop((None, k), None) or tr.sigs.get(("swap", k))
+    group("operator/single/swap.rs", swapf)
+
     # ---- operator/multi/h.rs (atom constructors come from rs2lean.py)
     tr.register("h1", "new", S("Gen.h1_new", [("a_mask", "N")], ATOM))
     tr.register("h2", "new", S("Gen.h2_new", [("a_mask", "N"), ("b_mask", "N")], ATOM))
@@ -2226,6 +2447,22 @@ def main():
         T(t, "operator/multi/h.rs", "h2", "h_h2")
         T(t, "operator/multi/h.rs", "h", "h_h", fuel="(W + 2)")
     group("operator/multi/h.rs", hfile)
+
+    # ---- operator/mod.rs: the public constructors
+    def opmod(t):
+        tr.in_opmod = True
+        if ("h", "h") not in tr.sigs and (None, "h") in tr.sigs:
+            tr.sigs[("h", "h")] = tr.sigs[(None, "h")]
+        for k in ["id", "x", "y", "z", "s", "t", "rx", "ry", "rz", "rxx", "ryy", "rzz", "swap", "sqrt_swap", "i_swap", "sqrt_i_swap", "h", "u1", "u2", "u3"]:
+            sg = T(t, "operator/mod.rs", k, "op_" + k)
+            if sg is not None:
+                tr.sigs[("opmod", k)] = sg
+            tr.sigs.pop((None, k), None) if k != "h" else None
+        tr.in_opmod = False
+    hsig = tr.sigs.get((None, "h"))
+    group("operator/mod.rs", opmod)
+    if hsig is not None:
+        tr.sigs[(None, "h")] = hsig
 
     # ---- register/class.rs: the straight-line functions come from rs2lean.py (Generated/Kernels.lean)
     tr.register("CReg", "with_state", S("Gen.creg_with_state", [("q_num", "N"), ("state", "N")], CREG))
@@ -2271,6 +2508,7 @@ def main():
         T(q, "register/quant.rs", "apply", "quant_apply", struct="QReg", impl=r"impl Reg")
         tr.generic_op_is_multi = False
         T(q, "register/quant.rs", "reset_by_mask", "quant_reset_by_mask", struct="QReg", impl=r"impl Reg")
+        T(q, "register/quant.rs", "sample_all", "quant_sample_all", struct="QReg", impl=r"impl Reg", fuel="fuel")
         T(q, "register/quant.rs", "get_vreg", "quant_get_vreg", struct="QReg", impl=r"impl Reg")
         T(q, "register/quant.rs", "get_vreg_by", "quant_get_vreg_by", struct="QReg", impl=r"impl Reg")
     group("register/quant.rs", quant)
